@@ -3,7 +3,7 @@
    The model is coq/Geom/GeomModel.v (what Geometry derives from a description), coq/Geom/CondFile.v (conductivity
    file).  Geometry enters through oracles handed in as data (solid-angle sign per interface, insideness per probe
    and interface) and through explicit hypotheses on them (monotone chain). *)
-From OM Require Import Base.Lists Base.Ops Geom.GeomModel Geom.GeomProofs Geom.CondFile Geom.CondProofs.
+From OM Require Import Base.Lists Base.Ops Geom.MeshTopo Geom.GeomModel Geom.GeomProofs Geom.OldOrdering Geom.CondFile Geom.CondProofs.
 From Coq Require Import Permutation.
 Local Open Scope Z_scope.
 
@@ -27,6 +27,33 @@ Print Assumptions generate_indices_bijection.
 Theorem index_list_is_range : forall a n, NoDup (zseq a n) /\ forall x, In x (zseq a n) <-> a <= x < a + Z.of_nat n.
 Proof. intros a n. split; [apply zseq_NoDup | intros x; apply zseq_In]. Qed.
 Print Assumptions index_list_is_range.
+
+(* --- OLD_ORDERING: per mesh its vertex references, then its triangles.  The code asserts is_nested(); what the
+   numbering needs is that no vertex is referenced twice - that is the hypothesis (a "nested" geometry in the code's
+   sense may still share vertices, see old_ordering_needs_disjoint_meshes) *)
+Theorem old_ordering_bijection : forall g fl invalid,
+  NoDup (flat_map lm_verts (g_meshes g)) -> (forall x, In x (flat_map lm_verts (g_meshes g)) -> (x < g_nv g)%nat) ->
+  let ix := generate_indices g true fl invalid in
+  let No := old_total (g_meshes g) fl in
+  let B := ntris barf (g_meshes g) fl in
+  old_order (ix_v ix) (g_meshes g) fl (ix_t ix) = zseq 0 No
+  /\ sel barf fl (ix_t ix) = zseq (Z.of_nat No) B
+  /\ sel isof fl (ix_t ix) = repeat (-1) (ntris isof (g_meshes g) fl)
+  /\ length (ix_v ix) = g_nv g /\ length (ix_t ix) = length (g_meshes g)
+  /\ ix_n ix = Z.of_nat No + Z.of_nat B /\ ix_nb ix = Z.of_nat B.
+Proof. exact old_ordering_spec. Qed.
+Print Assumptions old_ordering_bijection.
+
+(* without the hypothesis the old ordering is not injective: two meshes referencing the same vertex overwrite its
+   index (two triangles sharing vertex 0, one per mesh) *)
+Theorem old_ordering_needs_disjoint_meshes :
+  exists g fl, let ix := generate_indices g true fl [] in
+  ~ NoDup (old_order (ix_v ix) (g_meshes g) fl (ix_t ix)).
+Proof.
+  exists (mkGeom 5 [mkLMesh [0;1;2]%nat [(0,1,2)%nat]; mkLMesh [0;3;4]%nat [(0,3,4)%nat]] []), [flags0; flags0].
+  vm_compute. intros H. inversion H; subst. apply H2. vm_compute. tauto.
+Qed.
+Print Assumptions old_ordering_needs_disjoint_meshes.
 
 (* --- mesh-pair quantities are symmetric in the pair (any numeric instance) *)
 Theorem pair_quantities_symmetric : forall (F : Type) (o : Ops F) g conds m1 m2,
